@@ -660,8 +660,10 @@ func applicable(r *rule, nodes []metamodel.Node) []metamodel.Node {
 // goes through a region the statement does not list (callbacks, encoding).
 func locClass(n metamodel.Node) (string, bool) {
 	outside := false
-	for _, t := range n.Ptr {
-		if t == "callbacks" || t == "encoding" {
+	for i, t := range n.Ptr {
+		// a callback that is a component is reached through components; the callbacks of an operation
+		// are an edge the statement does not list (and document validation does not follow)
+		if t == "encoding" || t == "callbacks" && !(i == 1 && n.Ptr[0] == "components") {
 			outside = true
 		}
 	}
